@@ -146,3 +146,394 @@ Proof.
   unfold checked_get. destruct (i <? length l) eqn:E; [reflexivity|].
   apply Nat.ltb_ge in E. apply nth_error_None in E. rewrite E. reflexivity.
 Qed.
+
+(* ==== mutable accessors and the valid-get family ==================================================================== *)
+
+(* ---- update ------------------------------------------------------------------------------------------------------- *)
+Lemma update_length {A} (l : list A) i v : length (update l i v) = length l.
+Proof. revert i; induction l as [|h t IH]; intros [|i]; cbn; auto. Qed.
+
+Lemma nth_error_update {A} (l : list A) i v j :
+  nth_error (update l i v) j = if andb (j =? i) (i <? length l) then Some v else nth_error l j.
+Proof.
+  revert i j; induction l as [|h t IH]; intros i j.
+  - cbn. rewrite Bool.andb_false_r. destruct i; reflexivity.
+  - destruct i as [|i], j as [|j]; cbn [update nth_error length]; try reflexivity.
+    rewrite IH. reflexivity.
+Qed.
+
+Lemma update_oob {A} (l : list A) i v : length l <= i -> update l i v = l.
+Proof.
+  intros H. apply nth_error_ext. intros j. rewrite nth_error_update.
+  replace (i <? length l) with false by (symmetry; apply Nat.ltb_ge; exact H).
+  rewrite Bool.andb_false_r. reflexivity.
+Qed.
+
+Lemma update_same {A} (l : list A) i x : nth_error l i = Some x -> update l i x = l.
+Proof.
+  intros H. apply nth_error_ext. intros j. rewrite nth_error_update.
+  destruct (j =? i) eqn:E; [|reflexivity]. apply Nat.eqb_eq in E. subst j.
+  destruct (i <? length l); cbn; congruence.
+Qed.
+
+Lemma update_update {A} (l : list A) i v w : update (update l i v) i w = update l i w.
+Proof.
+  apply nth_error_ext. intros j. rewrite !nth_error_update, update_length.
+  destruct (andb (j =? i) (i <? length l)); reflexivity.
+Qed.
+
+Lemma update_comm {A} (l : list A) i j v w : i <> j ->
+  update (update l i v) j w = update (update l j w) i v.
+Proof.
+  intros Hn. apply nth_error_ext. intros k. rewrite !nth_error_update, !update_length.
+  destruct (k =? j) eqn:E1, (k =? i) eqn:E2; cbn [andb]; try reflexivity.
+  apply Nat.eqb_eq in E1, E2. congruence.
+Qed.
+
+(* writing through a list position that a map projects: used for the logical/physical transfer below *)
+Lemma map_update {A B} (f : A -> B) (l : list A) i v : map f (update l i v) = update (map f l) i (f v).
+Proof. revert i; induction l as [|h t IH]; intros [|i]; cbn; try rewrite IH; reflexivity. Qed.
+
+(* ---- Vec ------------------------------------------------------------------------------------------------------------ *)
+Lemma list_uset_spec {A} (l : list A) i v :
+  list_uset l i v = if i <? length l then Some (update l i v) else None.
+Proof. reflexivity. Qed.
+
+Lemma checked_set_list {A} (l : list A) i v :
+  checked_set (length l) (list_uset l) i v = if i <? length l then Some (update l i v) else None.
+Proof. unfold checked_set, list_uset. destruct (i <? length l); reflexivity. Qed.
+
+(* ---- ring buffer ------------------------------------------------------------------------------------------------------ *)
+Section RingMut.
+  Context {A : Type}.
+  Variable r : ring A.
+  Hypothesis Hwf : ring_wf r.
+
+  Lemma ring_uset_wf i v r' : ring_uset r i v = Some r' -> ring_wf r'.
+  Proof.
+    unfold ring_uset. destruct (i <? rlen r); [|discriminate]. intros H. injection H as <-.
+    unfold ring_wf, rcap in *. cbn [rbuf rhead rlen]. rewrite update_length. exact Hwf.
+  Qed.
+
+  Lemma ring_uset_layout i v r' : ring_uset r i v = Some r' ->
+    rhead r' = rhead r /\ rlen r' = rlen r /\ rcap r' = rcap r.
+  Proof.
+    unfold ring_uset. destruct (i <? rlen r); [|discriminate]. intros H. injection H as <-.
+    unfold rcap. cbn [rbuf rhead rlen]. rewrite update_length. auto.
+  Qed.
+
+  (* the physical slot of a logical position; injective below len *)
+  Lemma ring_slot_inj i j : i < rlen r -> j < rlen r ->
+    (rhead r + i) mod rcap r = (rhead r + j) mod rcap r -> i = j.
+  Proof.
+    destruct Hwf as [Hl Hh]. intros Hi Hj.
+    assert (Hm : forall k, k < rlen r ->
+              (rhead r + k) mod rcap r = if rhead r + k <? rcap r then rhead r + k else rhead r + k - rcap r).
+    { intros k Hk. destruct (rhead r + k <? rcap r) eqn:E.
+      - apply Nat.ltb_lt in E. apply Nat.mod_small. exact E.
+      - apply Nat.ltb_ge in E.
+        replace (rhead r + k) with ((rhead r + k - rcap r) + 1 * rcap r) at 1 by lia.
+        rewrite Nat.mod_add by lia. apply Nat.mod_small. lia. }
+    rewrite (Hm i Hi), (Hm j Hj).
+    destruct (rhead r + i <? rcap r) eqn:E1, (rhead r + j <? rcap r) eqn:E2;
+      try apply Nat.ltb_lt in E1; try apply Nat.ltb_lt in E2;
+      try apply Nat.ltb_ge in E1; try apply Nat.ltb_ge in E2; lia.
+  Qed.
+
+  Lemma ring_slot_lt i : (rhead r + i) mod rcap r < rcap r.
+  Proof. destruct Hwf. apply Nat.mod_upper_bound. lia. Qed.
+
+  (* a write at logical index i is a write at index i of the logical sequence; out of range is rejected *)
+  Lemma ring_uset_to_list i v :
+    option_map (@ring_to_list A) (ring_uset r i v)
+    = if i <? rlen r then Some (update (ring_to_list r) i v) else None.
+  Proof.
+    destruct (ring_uset r i v) as [r'|] eqn:E.
+    - pose proof (ring_uset_wf _ _ _ E) as Hwf'. pose proof (ring_uset_layout _ _ _ E) as (Hh & Hl & Hc).
+      unfold ring_uset in E. destruct (i <? rlen r) eqn:Ei; [|discriminate]. apply Nat.ltb_lt in Ei.
+      cbn [option_map]. f_equal. apply nth_error_ext. intros j.
+      rewrite (ring_get_to_list _ Hwf'), nth_error_update, (ring_to_list_length _ Hwf), (ring_get_to_list _ Hwf).
+      unfold ring_get. rewrite Hl, Hh, Hc. injection E as <-. cbn [rbuf].
+      replace (i <? rlen r) with true by (symmetry; apply Nat.ltb_lt; exact Ei). rewrite Bool.andb_true_r.
+      destruct (j <? rlen r) eqn:Ej.
+      + apply Nat.ltb_lt in Ej. rewrite nth_error_update.
+        replace ((rhead r + i) mod rcap r <? length (rbuf r)) with true
+          by (symmetry; apply Nat.ltb_lt; apply ring_slot_lt).
+        rewrite Bool.andb_true_r.
+        destruct (j =? i) eqn:Eji.
+        * apply Nat.eqb_eq in Eji. subst j. rewrite Nat.eqb_refl. reflexivity.
+        * apply Nat.eqb_neq in Eji.
+          replace ((rhead r + j) mod rcap r =? (rhead r + i) mod rcap r) with false; [reflexivity|].
+          symmetry. apply Nat.eqb_neq. intros Hs. apply Eji. apply ring_slot_inj; assumption.
+      + apply Nat.ltb_ge in Ej. replace (j =? i) with false by (symmetry; apply Nat.eqb_neq; lia). reflexivity.
+    - unfold ring_uset in E. destruct (i <? rlen r); [discriminate|]. reflexivity.
+  Qed.
+
+  (* get_mut of view_mut.rs over the ring *)
+  Lemma ring_checked_set_to_list i v :
+    option_map (@ring_to_list A) (checked_set (rlen r) (ring_uset r) i v)
+    = if i <? rlen r then Some (update (ring_to_list r) i v) else None.
+  Proof.
+    unfold checked_set. destruct (i <? rlen r) eqn:E; [|reflexivity]. rewrite ring_uset_to_list, E. reflexivity.
+  Qed.
+
+  (* the mutable slice is offered exactly when the immutable one is *)
+  Lemma ring_slice_mut_offered k v :
+    ring_slice_mut_set r k v = None <-> ring_try_as_slice r = None.
+  Proof.
+    destruct Hwf as [Hl Hh]. unfold ring_slice_mut_set, ring_try_as_slice, ring_slices, rcap in *.
+    destruct (rhead r + rlen r <=? length (rbuf r)) eqn:E.
+    - split; discriminate.
+    - apply Nat.leb_gt in E. split; [intros _|reflexivity].
+      destruct (seg 0 (rhead r + rlen r - length (rbuf r)) (rbuf r)) eqn:Es; [|reflexivity].
+      exfalso. apply (f_equal (@length A)) in Es. rewrite seg_length in Es by lia. cbn in Es. lia.
+  Qed.
+
+  (* a write through the mutable slice at index k IS the write at logical index k *)
+  Lemma ring_slice_mut_is_uset k v w : ring_slice_mut_set r k v = Some w -> w = ring_uset r k v.
+  Proof.
+    destruct Hwf as [Hl Hh]. unfold ring_slice_mut_set, ring_uset.
+    destruct (rhead r + rlen r <=? rcap r) eqn:E; [|discriminate]. apply Nat.leb_le in E.
+    intros H. injection H as <-. destruct (k <? rlen r) eqn:Ek; [|reflexivity]. apply Nat.ltb_lt in Ek.
+    rewrite (Nat.mod_small (rhead r + k)) by lia. reflexivity.
+  Qed.
+
+  Lemma ring_slice_mut_to_list k v w : ring_slice_mut_set r k v = Some w ->
+    option_map (@ring_to_list A) w = if k <? rlen r then Some (update (ring_to_list r) k v) else None.
+  Proof. intros H. rewrite (ring_slice_mut_is_uset _ _ _ H). apply ring_uset_to_list. Qed.
+
+  (* the slice has the whole length: every logical index can be written through it *)
+  Lemma ring_slice_mut_total k v w : ring_slice_mut_set r k v = Some w -> k < rlen r -> w <> None.
+  Proof.
+    unfold ring_slice_mut_set. destruct (_ <=? _); [|discriminate]. intros H Hk. injection H as <-.
+    replace (k <? rlen r) with true by (symmetry; apply Nat.ltb_lt; exact Hk). discriminate.
+  Qed.
+End RingMut.
+
+(* ---- strided view ----------------------------------------------------------------------------------------------------- *)
+Section StridedMut.
+  Context {A : Type}.
+  Variable s : strided A.
+  Hypothesis Hwf : strided_wf s.
+  (* a mutable view never aliases two logical positions (ndarray offers stride 0 only for immutable broadcasts) *)
+  Hypothesis Hstep : (sstep s <> 0)%Z.
+
+  Lemma strided_uset_wf i v s' : strided_uset s i v = Some s' -> strided_wf s'.
+  Proof.
+    unfold strided_uset. destruct (i <? slen s); [|discriminate]. intros H. injection H as <-.
+    unfold strided_wf, spos in *. cbn [sbase soff sstep slen]. rewrite update_length. exact Hwf.
+  Qed.
+
+  Lemma strided_slot_inj i j : i < slen s -> j < slen s ->
+    Z.to_nat (spos s i) = Z.to_nat (spos s j) -> i = j.
+  Proof.
+    intros Hi Hj H. pose proof (Hwf i Hi) as Bi. pose proof (Hwf j Hj) as Bj.
+    assert (E : spos s i = spos s j) by lia. unfold spos in E.
+    assert (E2 : ((Z.of_nat i - Z.of_nat j) * sstep s = 0)%Z) by lia.
+    apply Z.mul_eq_0 in E2. destruct E2 as [E2|E2]; [lia|contradiction].
+  Qed.
+
+  Lemma strided_uset_to_list i v :
+    option_map (@strided_to_list A) (strided_uset s i v)
+    = if i <? slen s then Some (update (strided_to_list s) i v) else None.
+  Proof.
+    destruct (strided_uset s i v) as [s'|] eqn:E.
+    - pose proof (strided_uset_wf _ _ _ E) as Hwf'.
+      unfold strided_uset in E. destruct (i <? slen s) eqn:Ei; [|discriminate]. apply Nat.ltb_lt in Ei.
+      cbn [option_map]. f_equal. apply nth_error_ext. intros j.
+      rewrite (strided_to_list_nth _ Hwf'), nth_error_update, (strided_to_list_length _ Hwf), (strided_to_list_nth _ Hwf).
+      injection E as <-. unfold strided_get, spos. cbn [sbase soff sstep slen]. fold (spos s j). fold (spos s i).
+      replace (i <? slen s) with true by (symmetry; apply Nat.ltb_lt; exact Ei). rewrite Bool.andb_true_r.
+      destruct (j <? slen s) eqn:Ej.
+      + apply Nat.ltb_lt in Ej. rewrite nth_error_update.
+        pose proof (Hwf i Ei) as Bi.
+        replace (Z.to_nat (spos s i) <? length (sbase s)) with true by (symmetry; apply Nat.ltb_lt; lia).
+        rewrite Bool.andb_true_r.
+        destruct (j =? i) eqn:Eji.
+        * apply Nat.eqb_eq in Eji. subst j. rewrite Nat.eqb_refl. reflexivity.
+        * apply Nat.eqb_neq in Eji.
+          replace (Z.to_nat (spos s j) =? Z.to_nat (spos s i)) with false; [reflexivity|].
+          symmetry. apply Nat.eqb_neq. intros Hs. apply Eji. apply strided_slot_inj; assumption.
+      + apply Nat.ltb_ge in Ej. replace (j =? i) with false by (symmetry; apply Nat.eqb_neq; lia). reflexivity.
+    - unfold strided_uset in E. destruct (i <? slen s); [discriminate|]. reflexivity.
+  Qed.
+
+  Lemma strided_checked_set_to_list i v :
+    option_map (@strided_to_list A) (checked_set (slen s) (strided_uset s) i v)
+    = if i <? slen s then Some (update (strided_to_list s) i v) else None.
+  Proof.
+    unfold checked_set. destruct (i <? slen s) eqn:E; [|reflexivity]. rewrite strided_uset_to_list, E. reflexivity.
+  Qed.
+
+  Lemma strided_slice_mut_offered k v :
+    strided_slice_mut_set s k v = None <-> strided_try_as_slice s = None.
+  Proof.
+    unfold strided_slice_mut_set, strided_try_as_slice. destruct (orb _ _); split; intros H; try discriminate; reflexivity.
+  Qed.
+
+  (* a write through the mutable slice at index k IS the write at logical index k — for every stride for which
+     the slice is offered; in particular a reversed view offers none *)
+  Lemma strided_slice_mut_is_uset k v w : strided_slice_mut_set s k v = Some w -> w = strided_uset s k v.
+  Proof.
+    clear Hwf Hstep.
+    unfold strided_slice_mut_set, strided_uset. destruct (orb _ _) eqn:E; [|discriminate].
+    intros H. injection H as <-. destruct (k <? slen s) eqn:Ek; [|reflexivity]. apply Nat.ltb_lt in Ek.
+    f_equal. f_equal. f_equal.
+    apply Bool.orb_true_iff in E. destruct E as [E|E].
+    - apply Z.eqb_eq in E. unfold spos. rewrite E. lia.
+    - apply Nat.leb_le in E. assert (k = 0) by lia. subst k. unfold spos. lia.
+  Qed.
+
+  Lemma strided_slice_mut_to_list k v w : strided_slice_mut_set s k v = Some w ->
+    option_map (@strided_to_list A) w = if k <? slen s then Some (update (strided_to_list s) k v) else None.
+  Proof. intros H. rewrite (strided_slice_mut_is_uset _ _ _ H). apply strided_uset_to_list. Qed.
+
+  Lemma strided_reversed_no_slice_mut k v : (sstep s < 0)%Z -> 2 <= slen s -> strided_slice_mut_set s k v = None.
+  Proof.
+    clear Hwf Hstep. intros Hneg Hl. unfold strided_slice_mut_set.
+    replace (sstep s =? 1)%Z with false by (symmetry; apply Z.eqb_neq; lia).
+    replace (slen s <=? 1) with false by (symmetry; apply Nat.leb_gt; lia). reflexivity.
+  Qed.
+End StridedMut.
+
+(* the defect class that was NOT present: a memory-order mutable slice would write the wrong logical element *)
+Lemma strided_memory_order_mut_refuted :
+  exists (s : strided nat) w, strided_wf s /\ (sstep s <> 0)%Z /\
+    strided_memory_order_mut_set s 0 9 = Some (Some w) /\
+    strided_to_list s = [4; 3; 2; 1] /\ strided_to_list w = [4; 3; 2; 9] /\
+    update (strided_to_list s) 0 9 = [9; 3; 2; 1].
+Proof.
+  exists {| sbase := [1; 2; 3; 4]; soff := 3; sstep := (-1)%Z; slen := 4 |}.
+  eexists. split; [|split; [cbn; lia|split; [reflexivity|repeat split]]].
+  intros i Hi. unfold spos. cbn [soff sstep sbase slen length] in *. lia.
+Qed.
+
+(* ---- get after set: the lens laws, for any container whose to_list/get/set satisfy the two characterisations ------------ *)
+Lemma get_update_same {A} (l : list A) i v : i < length l -> nth_error (update l i v) i = Some v.
+Proof.
+  intros H. rewrite nth_error_update, Nat.eqb_refl.
+  replace (i <? length l) with true by (symmetry; apply Nat.ltb_lt; exact H). reflexivity.
+Qed.
+Lemma get_update_other {A} (l : list A) i j v : j <> i -> nth_error (update l i v) j = nth_error l j.
+Proof.
+  intros H. rewrite nth_error_update. replace (j =? i) with false by (symmetry; apply Nat.eqb_neq; exact H). reflexivity.
+Qed.
+
+Lemma ring_get_uset {A} (r r' : ring A) i v j : ring_wf r -> ring_uset r i v = Some r' ->
+  ring_get r' j = if j =? i then Some v else ring_get r j.
+Proof.
+  intros Hwf E. pose proof (ring_uset_wf _ Hwf _ _ _ E) as Hwf'.
+  pose proof (ring_uset_to_list _ Hwf i v) as H. rewrite E in H. cbn [option_map] in H.
+  assert (Ei : i <? rlen r = true) by (unfold ring_uset in E; destruct (i <? rlen r); [reflexivity|discriminate]).
+  rewrite Ei in H. injection H as H.
+  rewrite <- (ring_get_to_list _ Hwf'), H, nth_error_update, (ring_to_list_length _ Hwf), Ei, Bool.andb_true_r,
+    (ring_get_to_list _ Hwf). reflexivity.
+Qed.
+
+Lemma strided_get_uset {A} (s s' : strided A) i v j : strided_wf s -> (sstep s <> 0)%Z -> strided_uset s i v = Some s' ->
+  strided_get s' j = if j =? i then Some v else strided_get s j.
+Proof.
+  intros Hwf Hst E. pose proof (strided_uset_wf _ Hwf _ _ _ E) as Hwf'.
+  pose proof (strided_uset_to_list _ Hwf Hst i v) as H. rewrite E in H. cbn [option_map] in H.
+  assert (Ei : i <? slen s = true) by (unfold strided_uset in E; destruct (i <? slen s); [reflexivity|discriminate]).
+  rewrite Ei in H. injection H as H.
+  rewrite <- (strided_to_list_nth _ Hwf'), H, nth_error_update, (strided_to_list_length _ Hwf), Ei, Bool.andb_true_r,
+    (strided_to_list_nth _ Hwf). reflexivity.
+Qed.
+
+(* the slice view after a write is the updated slice view (layout is not disturbed by a write) *)
+Lemma ring_try_as_slice_uset {A} (r r' : ring A) i v : ring_wf r -> ring_uset r i v = Some r' ->
+  ring_try_as_slice r' = option_map (fun l => update l i v) (ring_try_as_slice r).
+Proof.
+  intros Hwf E. pose proof (ring_uset_wf _ Hwf _ _ _ E) as Hwf'. pose proof (ring_uset_layout _ _ _ _ E) as (Hh & Hl & Hc).
+  pose proof (ring_uset_to_list _ Hwf i v) as H. rewrite E in H. cbn [option_map] in H.
+  assert (Ei : i <? rlen r = true) by (unfold ring_uset in E; destruct (i <? rlen r); [reflexivity|discriminate]).
+  rewrite Ei in H. injection H as H.
+  destruct (ring_try_as_slice r) as [l|] eqn:E1, (ring_try_as_slice r') as [l'|] eqn:E2; cbn [option_map].
+  - rewrite (ring_try_as_slice_sound _ Hwf' _ E2), (ring_try_as_slice_sound _ Hwf _ E1), H. reflexivity.
+  - exfalso. apply (ring_slice_mut_offered _ Hwf' 0 v) in E2. unfold ring_slice_mut_set in E2. rewrite Hh, Hl, Hc in E2.
+    assert (E3 : ring_slice_mut_set r 0 v = None) by (unfold ring_slice_mut_set; destruct (_ <=? _); [discriminate|reflexivity]).
+    apply (ring_slice_mut_offered _ Hwf) in E3. congruence.
+  - exfalso. apply (ring_slice_mut_offered _ Hwf 0 v) in E1. unfold ring_slice_mut_set in E1. rewrite <- Hh, <- Hl, <- Hc in E1.
+    assert (E3 : ring_slice_mut_set r' 0 v = None) by (unfold ring_slice_mut_set; destruct (_ <=? _); [discriminate|reflexivity]).
+    apply (ring_slice_mut_offered _ Hwf') in E3. congruence.
+  - reflexivity.
+Qed.
+
+(* ---- valid get (vget / uvget) and the element-wise iterators ------------------------------------------------------------- *)
+Lemma valid_get_spec {T I} (to_opt : T -> option I) (l : list T) i :
+  valid_get to_opt (length l) (nth_error l) i = match nth_error l i with Some x => to_opt x | None => None end.
+Proof.
+  unfold valid_get, uvalid_get. destruct (i <? length l) eqn:E; [reflexivity|].
+  apply Nat.ltb_ge in E. apply nth_error_None in E. rewrite E. reflexivity.
+Qed.
+
+Lemma uvalid_get_spec {T I} (to_opt : T -> option I) (l : list T) i :
+  i < length l -> uvalid_get to_opt (nth_error l) i = valid_get to_opt (length l) (nth_error l) i.
+Proof. intros H. unfold valid_get. replace (i <? length l) with true by (symmetry; apply Nat.ltb_lt; exact H). reflexivity. Qed.
+
+Lemma ring_valid_get {T I} (to_opt : T -> option I) (r : ring T) i : ring_wf r ->
+  valid_get to_opt (rlen r) (ring_get r) i
+  = match nth_error (ring_to_list r) i with Some x => to_opt x | None => None end.
+Proof.
+  intros Hwf. rewrite (ring_get_to_list _ Hwf). unfold valid_get, uvalid_get, ring_get.
+  destruct (i <? rlen r); reflexivity.
+Qed.
+
+Lemma strided_valid_get {T I} (to_opt : T -> option I) (s : strided T) i : strided_wf s ->
+  valid_get to_opt (slen s) (strided_get s) i
+  = match nth_error (strided_to_list s) i with Some x => to_opt x | None => None end.
+Proof.
+  intros Hwf. rewrite (strided_to_list_nth _ Hwf). unfold valid_get, uvalid_get, strided_get.
+  destruct (i <? slen s); reflexivity.
+Qed.
+
+Lemma chunked_valid_get {T I} (to_opt : option T -> option I) (c : chunked T) i :
+  valid_get to_opt (chunked_len c) (chunked_get c) i
+  = match nth_error (chunked_to_list c) i with Some x => to_opt x | None => None end.
+Proof.
+  rewrite chunked_len_spec. unfold valid_get, uvalid_get. rewrite chunked_get_spec.
+  destruct (i <? length (chunked_to_list c)) eqn:E; [reflexivity|].
+  apply Nat.ltb_ge in E. apply nth_error_None in E. rewrite E. reflexivity.
+Qed.
+
+(* position i of to_opt_iter is vget(i) *)
+Lemma to_opt_iter_nth {T I} (to_opt : T -> option I) (l : list T) i :
+  nth_error (to_opt_iter_m to_opt l) i
+  = if i <? length l then Some (valid_get to_opt (length l) (nth_error l) i) else None.
+Proof.
+  unfold to_opt_iter_m. rewrite nth_error_map, valid_get_spec.
+  destruct (i <? length l) eqn:E.
+  - apply Nat.ltb_lt in E. destruct (nth_error l i) eqn:En; [reflexivity|]. apply nth_error_None in En. lia.
+  - apply Nat.ltb_ge in E. apply nth_error_None in E. rewrite E. reflexivity.
+Qed.
+
+Lemma iter_cast_nth {T U} (cast : T -> U) (l : list T) i :
+  nth_error (iter_cast_m cast l) i = option_map cast (nth_error l i).
+Proof. apply nth_error_map. Qed.
+
+Lemma opt_iter_cast_spec {T I U} (to_opt : T -> option I) (cast : I -> U) (l : list T) :
+  opt_iter_cast_m to_opt cast l = map (option_map cast) (to_opt_iter_m to_opt l).
+Proof. unfold opt_iter_cast_m, to_opt_iter_m. rewrite map_map. reflexivity. Qed.
+
+Lemma opt_iter_cast_nth {T I U} (to_opt : T -> option I) (cast : I -> U) (l : list T) i :
+  nth_error (opt_iter_cast_m to_opt cast l) i
+  = if i <? length l then Some (option_map cast (valid_get to_opt (length l) (nth_error l) i)) else None.
+Proof.
+  rewrite opt_iter_cast_spec, nth_error_map, to_opt_iter_nth. destruct (i <? length l); reflexivity.
+Qed.
+
+Lemma elementwise_lengths {T I U V} (to_opt : T -> option I) (cast : T -> U) (cast' : I -> V) (l : list T) :
+  length (to_opt_iter_m to_opt l) = length l /\ length (iter_cast_m cast l) = length l
+  /\ length (opt_iter_cast_m to_opt cast' l) = length l.
+Proof. unfold to_opt_iter_m, iter_cast_m, opt_iter_cast_m. rewrite !map_length. auto. Qed.
+
+(* a write is seen by the valid-get: vget after set *)
+Lemma valid_get_update {T I} (to_opt : T -> option I) (l : list T) i v j : i < length l ->
+  valid_get to_opt (length (update l i v)) (nth_error (update l i v)) j
+  = if j =? i then to_opt v else valid_get to_opt (length l) (nth_error l) j.
+Proof.
+  intros Hi. rewrite !valid_get_spec, nth_error_update.
+  replace (i <? length l) with true by (symmetry; apply Nat.ltb_lt; exact Hi). rewrite Bool.andb_true_r.
+  destruct (j =? i); reflexivity.
+Qed.
